@@ -196,6 +196,9 @@ def run(tier):
             for b in ("print", "eprint", "format"):
                 stmt = '%s!("%s"%s);' % (b, t, a) if b != "format" else 'var s = format!("%s"%s);' % (t, a)
                 cases.append(("pf%d" % ke, "fn main()\n{\n\tvar x: i32 = 7;\n\t%s\n}\n" % stmt, "print-formats")); ke += 1
+                if b == "format" and ti < 2:
+                    # the formatted text used afterwards (D73)
+                    cases.append(("pf%d" % ke, "fn main()\n{\n\tvar x: i32 = 7;\n\t%s\n\tprint!(s, \"|\\n\");\n}\n" % stmt, "print-formats")); ke += 1
     # two and three modules that use the same builtins (state that survives from one module to the next)
     k2 = 0
     for b1 in ('print!("a\\n");', "abort!();", 'var s = format!("x", 1);', 'print!(12345i64, "\\n");'):
